@@ -19,7 +19,7 @@ def run(ctx, prog, facts, tier):
     rules_text.check_diagram_tables(ctx, prog)
     rules_text.check_side_letters(ctx, prog)
     rules_hash.check_parser_start_state(ctx, prog)
-    ctx.floor('C15 parser panic sites', ctx.analysed.get('panic_sites_parser', 0), 11)
+    ctx.floor('C15 parser panic site kinds (function, construct)', ctx.analysed.get('panic_site_kinds_parser', 0), 9)
     ctx.exhaustive = True
     ctx.assumptions += [
         'NOT decided: character-position arithmetic of the diagram (odd-index sampling) and hence the full print/parse round trip',
